@@ -171,9 +171,11 @@ class FileMover:
 
 
 class DryRunRenamer:
-    def __init__(self):
+    def __init__(self, same_directory_only: bool = False):
         self.removed_paths: Set[Path] = set()
         self.created_paths: Set[Path] = set()
+        self.same_directory_only = same_directory_only
+        """Refuse to move records between directories (as FileRenamer does)"""
 
     def __call__(
         self,
@@ -192,6 +194,14 @@ class DryRunRenamer:
         ) and destination_key not in self.removed_paths
         if destination_exists and not override:
             raise DestinationAlreadyExistsError(source_path, destination_path)
+
+        if (
+            self.same_directory_only
+            and source_path.parent != destination_path.parent
+        ):
+            raise InvalidDestinationError(
+                f"Destination path {destination_path} targets different directory"
+            )
 
         source_exists = (
             os.path.lexists(source_path) or source_key in self.created_paths
